@@ -129,6 +129,20 @@ Proof.
   apply remove_nth_app_last.
 Qed.
 
+Lemma skipn_nth_cons {A} (l : list A) r x : nth_error l r = Some x -> skipn r l = x :: skipn (S r) l.
+Proof.
+  revert r; induction l as [|h t IH]; intros [|r] H; cbn [nth_error skipn] in *; try discriminate.
+  - inversion H; reflexivity.
+  - apply IH. exact H.
+Qed.
+
+Lemma firstn_S_nth {A} (l : list A) r x : nth_error l r = Some x -> firstn (S r) l = firstn r l ++ [x].
+Proof.
+  revert r; induction l as [|h t IH]; intros [|r] H; cbn [nth_error] in *; try discriminate.
+  - inversion H; reflexivity.
+  - change (firstn (S (S r)) (h :: t)) with (h :: firstn (S r) t). rewrite (IH r H). reflexivity.
+Qed.
+
 (* ---------------------------------------------------------------------------------------- *)
 Section Proofs.
 Variable K : Type.
@@ -266,6 +280,72 @@ Definition ent (n : node) : K * Z := (nkey n, nval n).
 Definition keys (t : table) : list K := map nkey (order t).
 Definition abs (t : table) : omap := map ent (order t).
 
+(* the slot of the last item of a list: what endItem.prev designates *)
+Fixpoint last_slot (l : list node) : option slot :=
+  match l with
+  | [] => None
+  | n :: r => match r with [] => Some (nslot n) | _ :: _ => last_slot r end
+  end.
+
+Lemma last_slot_cons (h : node) l : l <> [] -> last_slot (h :: l) = last_slot l.
+Proof. destruct l; [congruence | reflexivity]. Qed.
+
+Lemma last_slot_app_cons (a : list node) n r : last_slot (a ++ n :: r) = last_slot (n :: r).
+Proof.
+  induction a as [|h a IH]; [reflexivity|].
+  change ((h :: a) ++ n :: r) with (h :: (a ++ n :: r)).
+  rewrite last_slot_cons by (destruct a; discriminate). exact IH.
+Qed.
+
+Lemma last_slot_none (l : list node) : last_slot l = None <-> l = [].
+Proof.
+  split; [|intros ->; reflexivity].
+  induction l as [|h t IH]; [reflexivity|]. intros H. destruct t as [|m t']; [discriminate|].
+  rewrite last_slot_cons in H by discriminate. apply IH in H. discriminate.
+Qed.
+
+Lemma last_slot_from r m (l : list node) : nth_error l r = Some m -> last_slot l = last_slot (m :: skipn (S r) l).
+Proof. intros E. rewrite (remove_nth_split r l m E) at 1. apply last_slot_app_cons. Qed.
+
+Lemma last_slot_insert_at pos nd (l : list node) :
+  last_slot (insert_at pos nd l) = match nth_error l pos with None => Some (nslot nd) | Some _ => last_slot l end.
+Proof.
+  unfold insert_at. destruct (nth_error l pos) as [m|] eqn:E.
+  - rewrite (skipn_nth_cons l pos m E). rewrite last_slot_app_cons.
+    rewrite (last_slot_from pos m l E). reflexivity.
+  - apply nth_error_None in E. rewrite firstn_all2 by lia. rewrite skipn_all2 by lia.
+    rewrite last_slot_app_cons. reflexivity.
+Qed.
+
+Lemma last_slot_remove_nth r n (l : list node) :
+  nth_error l r = Some n ->
+  last_slot (remove_nth r l) =
+  match nth_error l (S r) with
+  | Some _ => last_slot l
+  | None => match r with O => None | S r' => option_map nslot (nth_error l r') end
+  end.
+Proof.
+  intros E. unfold remove_nth. destruct (nth_error l (S r)) as [m|] eqn:E2.
+  - rewrite (skipn_nth_cons l (S r) m E2). rewrite last_slot_app_cons.
+    rewrite (last_slot_from (S r) m l E2). reflexivity.
+  - apply nth_error_None in E2. rewrite skipn_all2 by lia. rewrite app_nil_r.
+    destruct r as [|r']; [reflexivity|].
+    destruct (nth_error l r') as [p|] eqn:E3.
+    + rewrite (firstn_S_nth l r' p E3). rewrite last_slot_app_cons. reflexivity.
+    + apply nth_error_None in E3. assert (Hlt : (S r' < length l)%nat) by (apply nth_error_Some; congruence). lia.
+Qed.
+
+Lemma last_slot_upd r n n' (l : list node) :
+  nth_error l r = Some n -> nslot n' = nslot n -> last_slot (upd r n' l) = last_slot l.
+Proof.
+  revert r; induction l as [|h t IH]; intros [|r] E Hs; cbn [nth_error] in E; try discriminate.
+  - inversion E; subst h. cbn [upd]. destruct t; cbn [last_slot]; congruence.
+  - cbn [upd]. assert (Ht : t <> []) by (intros ->; destruct r; discriminate).
+    assert (Hu : upd r n' t <> []).
+    { intros Hn. apply (f_equal (@length node)) in Hn. rewrite upd_length in Hn. destruct t; [congruence|discriminate]. }
+    rewrite !last_slot_cons by assumption. apply IH; assumption.
+Qed.
+
 Lemma abs_entries t : entries t = abs t.
 Proof. reflexivity. Qed.
 
@@ -322,13 +402,15 @@ Record chains_ok (t : table) : Prop := mk_ok {
   ok_data : if has_data t then length (buckets t) = Z.to_nat (cap t) else buckets t = [] /\ order t = [];
   ok_sound : forall i k, In k (nth i (buckets t) []) -> i = bidx t k /\ In k (keys t);
   ok_complete : forall k, In k (keys t) -> In k (chain t k);
-  ok_chain_nodup : forall i, NoDup (nth i (buckets t) [])
+  ok_chain_nodup : forall i, NoDup (nth i (buckets t) []);
+  (* the prev link of the end sentinel designates the last item (null iff there is none) *)
+  ok_endprev : end_prev t = last_slot (order t)
 }.
 
 Lemma bidx_lt t k : 1 <= cap t -> (bidx t k < Z.to_nat (cap t))%nat.
 Proof. intros H. unfold HashModel.bidx. pose proof (Z.mod_pos_bound (hash k) (cap t)). lia. Qed.
 
-Lemma new_table_ok c : 1 <= c -> chains_ok (new_table c).
+Lemma new_table_ok x c : 1 <= c -> chains_ok (new_table x c).
 Proof.
   intros H. constructor; simpl.
   - exact H.
@@ -338,6 +420,7 @@ Proof.
   - intros i k Hi. destruct i; simpl in Hi; contradiction.
   - intros k Hi. contradiction.
   - intros i. destruct i; constructor.
+  - reflexivity.
 Qed.
 
 Lemma chain_has_in t k : chains_ok t -> (chain_has t k = true <-> In k (keys t)).
@@ -374,11 +457,11 @@ Proof.
 Qed.
 
 Lemma chains_ok_set_order t o :
-  chains_ok t -> map nkey o = keys t -> chains_ok (set_order t o).
+  chains_ok t -> map nkey o = keys t -> last_slot o = last_slot (order t) -> chains_ok (set_order t o).
 Proof.
-  intros Hok Hk. assert (Hl : length o = length (order t)).
+  intros Hok Hk Hls. assert (Hl : length o = length (order t)).
   { rewrite <- (map_length nkey o), Hk. unfold keys. apply map_length. }
-  destruct Hok as [H1 H2 H3 H4 H5 H6 H7].
+  destruct Hok as [H1 H2 H3 H4 H5 H6 H7 H8].
   constructor; unfold set_order, keys in *; simpl; auto.
   - rewrite Hl. exact H2.
   - rewrite Hk. exact H3.
@@ -386,6 +469,7 @@ Proof.
     rewrite Hb in Hl. destruct o; simpl in *; auto; discriminate.
   - intros i k Hi. rewrite Hk. apply H5 in Hi. exact Hi.
   - intros k Hi. rewrite Hk in Hi. apply H6 in Hi. exact Hi.
+  - rewrite Hls. exact H8.
 Qed.
 
 Lemma remove_first_in (c : list K) k x : NoDup c -> (In x (remove_first k c) <-> In x c /\ x <> k).
@@ -408,7 +492,7 @@ Proof.
   constructor; auto. intros H. apply remove_first_in in H; auto. tauto.
 Qed.
 
-Ltac proj := cbn [cap has_data buckets order size free nblocks nkey nval nslot].
+Ltac proj := cbn [cap has_data buckets order size free nblocks end_prev end_owner nkey nval nslot].
 
 Lemma bidx_cap (t t' : table) k : cap t' = cap t -> bidx t' k = bidx t k.
 Proof. intros H. unfold HashModel.bidx. rewrite H. reflexivity. Qed.
@@ -428,7 +512,8 @@ Lemma link_ok t pos k nd fr nb :
   chains_ok t -> ~ In k (keys t) -> nkey nd = k ->
   let bs := if has_data t then buckets t else repeat [] (Z.to_nat (cap t)) in
   let b := bidx t k in
-  chains_ok (mktable (cap t) true (upd b (k :: nth b bs []) bs) (insert_at pos nd (order t)) (size t + 1) fr nb).
+  chains_ok (mktable (cap t) true (upd b (k :: nth b bs []) bs) (insert_at pos nd (order t)) (size t + 1) fr nb
+                     (match nth_error (order t) pos with None => Some (nslot nd) | Some _ => end_prev t end) (end_owner t)).
 Proof.
   intros Hok Hni Hnd bs b.
   assert (Ha : length bs = Z.to_nat (cap t)).
@@ -443,7 +528,8 @@ Proof.
   { subst bs. intros i. destruct (has_data t). apply (ok_chain_nodup t Hok). rewrite nth_repeat_nil. constructor. }
   assert (Hblt : (b < length bs)%nat). { rewrite Ha. apply bidx_lt. apply (ok_cap t Hok). }
   clearbody bs.
-  set (T' := mktable (cap t) true (upd b (k :: nth b bs []) bs) (insert_at pos nd (order t)) (size t + 1) fr nb).
+  set (T' := mktable (cap t) true (upd b (k :: nth b bs []) bs) (insert_at pos nd (order t)) (size t + 1) fr nb
+                     (match nth_error (order t) pos with None => Some (nslot nd) | Some _ => end_prev t end) (end_owner t)).
   assert (Hkeys : forall k0, In k0 (keys T') <-> k0 = k \/ In k0 (keys t)).
   { intros k0. unfold keys, T'. proj. rewrite insert_at_map, Hnd. apply in_insert_at. }
   assert (Hbi : forall k0, bidx T' k0 = bidx t k0) by (intros; apply bidx_cap; reflexivity).
@@ -466,6 +552,7 @@ Proof.
     + destruct Hi as [Hi|Hi]; [subst k0; exfalso; apply Hbi'; reflexivity|]. apply Hc. exact Hi.
   - intros i. rewrite Hnth. destruct (Nat.eqb_spec b i) as [Hbi'|Hbi']; auto.
     constructor; auto. intros Hi. apply Hb in Hi. tauto.
+  - unfold T'. proj. rewrite last_slot_insert_at. rewrite (ok_endprev t Hok). reflexivity.
 Qed.
 
 Lemma insert_refines kd t pos k v :
@@ -488,7 +575,7 @@ Proof.
     set (n' := mknode (nkey n) v (nslot n)).
     assert (Hk' : map nkey (upd r n' (order t)) = keys t).
     { rewrite map_upd. simpl. apply upd_same. unfold keys. rewrite nth_error_map', Hnth. reflexivity. }
-    split; [apply chains_ok_set_order; auto|].
+    split; [apply chains_ok_set_order; auto; apply (last_slot_upd r n n' (order t) Hnth eq_refl)|].
     split.
     + unfold abs at 1. unfold set_order. proj. rewrite map_upd.
       rewrite (s_set_upd (abs t) r k v).
@@ -500,8 +587,8 @@ Proof.
   - assert (Hhas : s_has keqb (abs t) k = false) by (apply s_has_false; rewrite abs_keys; auto).
     unfold s_put. rewrite Hhas.
     destruct (alloc kd (free t) (nblocks t)) as [[s fr] nb] eqn:Ea. simpl.
-    split; [apply link_ok; auto|].
-    assert (Habs : forall T b, abs (mktable (cap t) true b (insert_at pos (mknode k (ins_value kd v) s) (order t)) T fr nb)
+    split; [apply (link_ok t pos k (mknode k (ins_value kd v) s) fr nb); auto|].
+    assert (Habs : forall T b ep ow, abs (mktable (cap t) true b (insert_at pos (mknode k (ins_value kd v) s) (order t)) T fr nb ep ow)
                    = insert_at pos (k, ins_value kd v) (abs t)).
     { intros. unfold abs. proj. rewrite insert_at_map. reflexivity. }
     rewrite Habs. split; auto.
@@ -524,7 +611,11 @@ Proof.
   assert (Hblt : (b < length bs)%nat). { unfold bs. rewrite Hd. apply bidx_lt. apply (ok_cap t Hok). }
   assert (Hkn : nth_error (keys t) r = Some k). { unfold keys. rewrite nth_error_map', En. reflexivity. }
   set (T' := mktable (cap t) true (upd b (remove_first k (nth b bs [])) bs) (remove_nth r (order t)) (size t - 1)
-                     (nslot n :: free t) (nblocks t)).
+                     (nslot n :: free t) (nblocks t)
+                     (match nth_error (order t) (S r) with
+                      | Some _ => end_prev t
+                      | None => match r with O => None | S r' => option_map nslot (nth_error (order t) r') end
+                      end) (end_owner t)).
   assert (Hkeys : forall k0, In k0 (keys T') <-> In k0 (keys t) /\ k0 <> k).
   { intros k0. unfold keys, T'. proj. rewrite remove_nth_map. apply in_remove_nth; auto. apply (ok_nodup t Hok). }
   assert (Hbi : forall k0, bidx T' k0 = bidx t k0) by (intros; apply bidx_cap; reflexivity).
@@ -548,6 +639,7 @@ Proof.
   - intros i. rewrite Hnth. destruct (Nat.eqb_spec b i) as [Hbi'|Hbi'].
     + apply remove_first_nodup. apply (ok_chain_nodup t Hok).
     + apply (ok_chain_nodup t Hok).
+  - unfold T'. proj. rewrite (last_slot_remove_nth r n (order t) En). rewrite (ok_endprev t Hok). reflexivity.
 Qed.
 
 Lemma iter_at_refines t r : iter_at t r = s_iter (abs t) r.
@@ -570,7 +662,7 @@ Proof.
   - split; auto. symmetry. apply s_remove_key_notin. rewrite abs_keys. exact Hl.
 Qed.
 
-Lemma clear_refines t : chains_ok t -> chains_ok (clear t) /\ abs (clear t) = [].
+Lemma clear_refines x t : chains_ok t -> chains_ok (clear x t) /\ abs (clear x t) = [].
 Proof.
   intros Hok. split; [|reflexivity]. unfold clear. constructor; proj; unfold keys; proj; simpl.
   - apply (ok_cap t Hok).
@@ -582,12 +674,30 @@ Proof.
   - intros i k Hi. rewrite nth_map_nil in Hi. contradiction.
   - intros k Hi. contradiction.
   - intros i. rewrite nth_map_nil. constructor.
+  - reflexivity.
 Qed.
 
 Lemma obs_refines t : chains_ok t -> m_obs t = s_obs (abs t).
 Proof.
   intros Hok. unfold m_obs, s_obs. rewrite abs_entries. unfold abs at 2 3. rewrite map_length.
-  rewrite (ok_size t Hok). f_equal. f_equal. unfold abs. destruct (order t); reflexivity.
+  rewrite (ok_size t Hok). f_equal. f_equal. rewrite (ok_endprev t Hok). unfold abs.
+  destruct (last_slot (order t)) eqn:El.
+  - destruct (order t); [discriminate|reflexivity].
+  - apply last_slot_none in El. rewrite El. reflexivity.
+Qed.
+
+(* one half of swap: taking over a consistent table and re-anchoring it on the sentinel of x yields the
+   same table content - the branch on endItem.prev agrees with the list because of ok_endprev *)
+Lemma take_refines x t : chains_ok t -> chains_ok (take x t) /\ abs (take x t) = abs t /\ end_owner (take x t) = x.
+Proof.
+  intros Hok. unfold take. pose proof (ok_endprev t Hok) as He.
+  destruct (end_prev t) as [l|] eqn:Ep.
+  - split; [|split; reflexivity].
+    destruct Hok as [H1 H2 H3 H4 H5 H6 H7 H8]. constructor; proj; auto.
+  - symmetry in He. apply last_slot_none in He.
+    split; [|split; [unfold abs; proj; rewrite He; reflexivity | reflexivity]].
+    destruct Hok as [H1 H2 H3 H4 H5 H6 H7 H8]. unfold keys, HashModel.chain, HashModel.bidx in *. rewrite He in *.
+    constructor; unfold keys, HashModel.chain, HashModel.bidx; proj; auto.
 Qed.
 
 (* operator== *)
